@@ -154,6 +154,15 @@ M1 ==
               binds |-> IF v4 = <<>> THEN {} ELSE {B("inside_in", "inside", "in")}, routes |-> {}, ifs |-> {},
               parts |-> [v4 |-> v4, v6 |-> v6, pre |-> pre, app |-> app]]
 
+(* M2L: the same merge, but the device already holds an ACL (any sequence over the lines of all   *)
+(* parts, plain or generated name): the incremental script must arrive at the effective target    *)
+M2L ==
+  \E a \in RandomSubset(40, InjSeqs(V4Pool \cup PrePool \cup AppPool \cup {P6}, 3)), dn \in {"inside_in", "inside_in-DRC-0"},
+     v4 \in InjSeqs(V4Pool, MaxLen), v6 \in {<<>>, <<P6>>}, pre \in SeqsUpTo(PrePool, 2), app \in SeqsUpTo(AppPool, 2) :
+    /\ dev = Cfg([n \in {dn} |-> a], NoFn, {B(dn, "inside", "in")}, {}, {"inside"})
+    /\ tgt = [acls |-> [inside_in |-> v4], groups |-> NoFn, binds |-> {B("inside_in", "inside", "in")}, routes |-> {}, ifs |-> {},
+              parts |-> [v4 |-> v4, v6 |-> v6, pre |-> pre, app |-> app]]
+
 (* F1L: longer ACLs (up to MaxLen lines over 8 overlapping ACEs): a seeded random sample of the  *)
 (* pairs, drawn by TLC (Randomization!RandomSubset, seed = tlc -seed)                             *)
 PoolL == Pool \cup {Ace("permit", "ip", T("host", "h2"), T("host", "h4")), Ace("permit", "udp53", T("net", "n34"), T("any", ""))}
@@ -162,7 +171,7 @@ F1L ==
     /\ dev = Cfg([inside_in |-> a], NoFn, {B("inside_in", "inside", "in")}, {}, {"inside"})
     /\ tgt = Cfg([inside_in |-> b], NoFn, {B("inside_in", "inside", "in")}, {}, {})
 
-Init == CASE Fam = "F1L" -> F1L [] Fam = "M1" -> M1 [] Fam = "F9" -> F9 [] Fam = "F1" -> F1 [] Fam = "F2" -> F2 [] Fam = "F3" -> F3 [] Fam = "F4" -> F4 [] Fam = "F7" -> F7
+Init == CASE Fam = "M2L" -> M2L [] Fam = "F1L" -> F1L [] Fam = "M1" -> M1 [] Fam = "F9" -> F9 [] Fam = "F1" -> F1 [] Fam = "F2" -> F2 [] Fam = "F3" -> F3 [] Fam = "F4" -> F4 [] Fam = "F7" -> F7
 Next == UNCHANGED <<dev, tgt>>
 
 \* non-vacuity of C16: the input offers several equally good matches
